@@ -146,6 +146,7 @@ REQUIRED_MONITORS = [
     "backend_kwarg",
     "strip_exponent",
     "no_canonicalize",
+    "no_canonicalize_raw_labels",
     "user_preset",
     "user_preset_model",
     "user_preset_consulted",
@@ -1524,6 +1525,8 @@ def fe_monitors(case):
         mons.append("strip_exponent")
     if fe.get("canonicalize") is False or (fe["route"] == "einsum_tree" and fe.get("canonicalize") is None):
         mons.append("no_canonicalize")
+    if fe.get("raw_labels"):
+        mons.append("no_canonicalize_raw_labels")
     k = fe["opt"][0]
     if k == "user":
         mons.append("user_preset")
@@ -1896,6 +1899,11 @@ def _maybe_identity(case):
     return False
 
 
+# label kinds that keep working when the front end is told not to relabel (orderable, hashable): what the
+# unchanged library handles with canonicalize=False through array_contract / array_contract_expression
+RAW_LABEL_KINDS = ("int", "str", "tuple")
+
+
 def gen_fe_case(rng, cs, tier):
     base = _wchoice(rng, [("einsum", 11), ("array_contract", 8), ("ncon", 1)])
     if base == "einsum":
@@ -1941,7 +1949,12 @@ def gen_fe_case(rng, cs, tier):
     elif fe["constants"] is None and rng.random() < 0.25:
         # (with constants the keyword is not part of the signature)
         if base == "array_contract":
-            _relabel_chars(rng, case)
+            if route in ("array_contract", "expression") and n >= 2 and case.get("label_kind") in RAW_LABEL_KINDS and rng.random() < 0.6:
+                # the labels stay what they are (ints, tuples, words, ...): "arbitrary hashable index labels"
+                # holds with canonicalize=False too on these routes (the expression builder relabels internally)
+                fe["raw_labels"] = True
+            else:
+                _relabel_chars(rng, case)
             fe["canonicalize"] = False
         elif base == "einsum":
             fe["canonicalize"] = False
@@ -1950,6 +1963,8 @@ def gen_fe_case(rng, cs, tier):
 
     # ---- optimize ------------------------------------------------------------------------
     kinds = [("preset", 8), ("user", 5), ("explicit", 2), ("tree", 2), ("sliced", 2), ("object", 2)]
+    if fe.get("raw_labels"):
+        kinds = [("preset", 1)]  # paths / trees / optimizer objects are given single-letter labels (see _relabel_chars)
     edge = _edge_labels(case)
     if edge:
         kinds.append(("edge", 2))
